@@ -159,6 +159,59 @@ def arg_specs():
     return out
 
 
+# falsy / boundary options of the factories, swept over all contents of <= 2 lines
+VARIANTS = [{"kind": "text", "save_as": "empty"}, {"kind": "text", "save_as": "slash"},
+            {"kind": "cmd", "save_as": "empty"}, {"kind": "cmd", "save_as": "slash"},
+            {"kind": "ds_list", "save_as": "empty"}, {"kind": "ds_str", "save_as": "slash"},
+            {"kind": "raw", "save_as": "empty"},
+            {"kind": "cmd", "save_as": "none", "keep_rc": True}, {"kind": "cmd", "save_as": "rename", "keep_rc": True},
+            {"kind": "ds_list", "save_as": "none", "ctx": True}, {"kind": "ds_str", "save_as": "dir", "ctx": True}]
+
+
+def many_specs():
+    """>= 10 elements (names / arguments 1..12, so '1' is a prefix of '10', '11', '12' and name order differs from
+    numeric order), serial and through the pool with reversed and rotated completion order."""
+    out = []
+    names = [str(k) for k in range(1, 13)]
+    def elems(order):
+        return [{"n": n, "lines": ["element %s" % n] + ([""] if n == "10" else [])} for n in order]
+    for kind, mode in MULTI:
+        order = sorted(names) if kind == "m_glob" else names
+        out.append({"part": "A", "kind": kind, "save_as": mode, "elems": elems(order)})
+        if kind != "m_glob":
+            out.append({"part": "A", "kind": kind, "save_as": mode, "elems": elems(order[::-1])})
+        n = len(names)
+        for perm in (list(range(n))[::-1], list(range(1, n)) + [0], [9, 0, 10, 1] + [k for k in range(n) if k not in (9, 0, 10, 1)]):
+            out.append({"part": "A", "kind": kind, "save_as": mode, "elems": elems(order), "pool": True, "exec": perm})
+    # integer arguments 0..11 for the command kinds (0 falsy, 10 and 11 two digits)
+    ints = [{"n": "v%d" % k, "arg": k, "lines": ["int %d" % k]} for k in range(12)]
+    out.append({"part": "A", "kind": "m_cmd", "save_as": "none", "elems": ints})
+    out.append({"part": "A", "kind": "ccmd", "save_as": "none", "elems": ints})
+    return out
+
+
+def collide_specs():
+    """Two or three elements of ONE multi-output spec whose persisted locations coincide: the same base name under a
+    save-as directory (which is what a save-as directory is for: it drops the source directories), and two commands
+    that differ only in characters the command-name mangling identifies ('a/b' vs 'a.b'). Contents differ."""
+    out = []
+    for kind in ("m_text", "m_raw", "m_glob", "m_ds"):
+        for names in (["x/f", "y/f"], ["y/f", "x/f"], ["x/f", "y/g", "z/f"], ["x/f", "y/f", "z/f"]):
+            if kind == "m_glob":
+                if names != sorted(names):
+                    continue                     # glob_file sorts: the swapped pair is the same case
+            out.append({"part": "A", "kind": kind, "save_as": "dir",
+                        "elems": [{"n": n, "lines": ["content of %s" % n]} for n in names]})
+        # control: the same names without save-as do not collide
+        out.append({"part": "A", "kind": kind, "save_as": "none",
+                    "elems": [{"n": n, "lines": ["content of %s" % n]} for n in ["x/f", "y/f"]]})
+    long = "x" * 260        # the mangled command name is cut at 255 characters
+    for args in (["a/b", "a.b"], ["a.b", "a/b"], ["a/b", "c", "a.b"], ["a b", "a_b"], [long + "1", long + "2"]):
+        out.append({"part": "A", "kind": "m_cmd", "save_as": "none",
+                    "elems": [{"n": "e%d" % k, "arg": a, "lines": ["output for %s" % a]} for k, a in enumerate(args)]})
+    return out
+
+
 def sweep_contents(unit):
     """Contents of one sweep unit: all sequences of exactly `len` tokens starting with `first`
     (first = None: all sequences of length <= len)."""
@@ -181,8 +234,15 @@ def units(tier, seed):
             us.append({"part": "A", "sub": "order", "kind": kind, "save_as": mode, "pool": pool})
     us.append({"part": "A", "sub": "fail"})
     us.append({"part": "A", "sub": "args"})
-    for subset in enumx.subsets(range(3)):
-        us.append({"part": "B", "sub": "kinds", "subset": list(subset)})
+    us.append({"part": "A", "sub": "many"})
+    us.append({"part": "A", "sub": "collide"})
+    for k in range(len(VARIANTS)):
+        us.append({"part": "A", "sub": "variant", "index": k})
+    for sc in H_SCENARIOS:
+        us.append({"part": "H", "scenario": sc})
+    for arch in sorted(B_ARCHS):
+        for subset in enumx.subsets(range(3)):
+            us.append({"part": "B", "sub": "kinds", "subset": list(subset), "arch": arch})
     lens = template_lengths()
     per = 40 if tier == "quick" else 100
     for subset in enumx.subsets(range(3), min_size=1):
@@ -281,7 +341,7 @@ def content_features(spec, orig):
 def check_entry(spec, orig, doc, present, value, errors_expected):
     """One component after loading. Returns (violations [(clause, expected, observed)], info)."""
     v = []
-    info = {"persisted": 0, "loaded": 0, "rels": set(), "errors": 0}
+    info = {"persisted": 0, "loaded": 0, "rels": set(), "errors": 0, "collide": False}
     if errors_expected:
         have = doc.get("errors") if isinstance(doc, dict) else None
         info["errors"] = len(have) if isinstance(have, list) else 0
@@ -293,6 +353,8 @@ def check_entry(spec, orig, doc, present, value, errors_expected):
     results = doc.get("results") if isinstance(doc, dict) else None
     persisted = results if isinstance(results, list) else ([] if results is None else [results])
     info["persisted"] = len(persisted)
+    locs = [r["object"].get("relative_path") for r in persisted if isinstance(r, dict) and isinstance(r.get("object"), dict)]
+    info["collide"] = len(set(locs)) < len(locs)      # two elements of ONE spec were persisted to one location
     if not persisted:
         if present:
             v.append(("roundtrip:loaded-without-persisted-result", "absent", "present"))
@@ -308,34 +370,65 @@ def check_entry(spec, orig, doc, present, value, errors_expected):
     if len(provs) != len(persisted):
         v.append(("roundtrip:result-count", len(persisted), len(provs)))
     elems = orig["elems"]
-    j = 0
+    gots = []
     for k, p in enumerate(provs):
         try:
             got = p.content
-            got = got if isinstance(got, bytes) else list(got)
+            gots.append(got if isinstance(got, bytes) else list(got))
         except Exception as ex:
             v.append(("roundtrip:content-unreadable", "readable content", repr(ex)[:300]))
-            continue
-        m = None
-        for x in range(j, len(elems)):
-            if relation(elems[x][0], got):
-                m = x
-                break
-        if m is None:
-            if any(relation(elems[x][0], got) for x in range(0, j)):
+            gots.append(None)
+    # which collected element does loaded element k stand for?
+    if len(provs) == len(elems):
+        # nothing was dropped: the statement decides position by position
+        match = list(range(len(provs)))
+        bad = [k for k in match if gots[k] is not None and not relation(elems[k][0], gots[k])]
+        if bad:
+            free = list(range(len(elems)))
+            permuted = True
+            for k in range(len(provs)):
+                hit = next((x for x in free if gots[k] is not None and relation(elems[x][0], gots[k])), None)
+                if hit is None:
+                    permuted = False
+                    break
+                free.remove(hit)
+            if permuted:        # same elements, other order
                 v.append(("roundtrip:element-order", {"collected_order": [show(el[0]) for el in elems]},
-                          {"loaded_position": k, "loaded": show(got)}))
+                          {"loaded_order": [show(g) for g in gots]}))
             else:
-                v.append(("roundtrip:content", {"collected": [show(el[0]) for el in elems[j:]] or [show(el[0]) for el in elems]},
-                          {"loaded_position": k, "loaded": show(got)}))
-            continue
-        j = m + 1
-        c0, cmd0, args0 = elems[m]
-        info["rels"].add(relation(c0, got))
-        if spec["kind"] != "cfile" and p.cmd != cmd0:
-            v.append(("roundtrip:cmd", cmd0, p.cmd))
-        if not same_args(p.args, args0):
-            v.append(("roundtrip:args", {"args": norm_args(args0)}, {"args": norm_args(p.args)}))
+                for k in bad:
+                    v.append(("roundtrip:content", {"position": k, "collected": show(elems[k][0])},
+                              {"position": k, "loaded": show(gots[k])}))
+            for k in bad:
+                match[k] = None
+    else:
+        # some collected elements were not persisted (their serialisation failed): order-preserving alignment
+        match = []
+        j = 0
+        for k in range(len(provs)):
+            got = gots[k]
+            m = None
+            if got is not None:
+                m = next((x for x in range(j, len(elems)) if relation(elems[x][0], got)), None)
+                if m is None:
+                    if any(relation(elems[x][0], got) for x in range(0, j)):
+                        v.append(("roundtrip:element-order", {"collected_order": [show(el[0]) for el in elems]},
+                                  {"loaded_position": k, "loaded": show(got)}))
+                    else:
+                        v.append(("roundtrip:content", {"collected": [show(el[0]) for el in elems[j:]] or [show(el[0]) for el in elems]},
+                                  {"loaded_position": k, "loaded": show(got)}))
+                else:
+                    j = m + 1
+            match.append(m)
+    for k, p in enumerate(provs):
+        m = match[k]
+        if m is not None and gots[k] is not None:
+            c0, cmd0, args0 = elems[m]
+            info["rels"].add(relation(c0, gots[k]))
+            if spec["kind"] != "cfile" and p.cmd != cmd0:
+                v.append(("roundtrip:cmd", cmd0, p.cmd))
+            if not same_args(p.args, args0):
+                v.append(("roundtrip:args", {"args": norm_args(args0)}, {"args": norm_args(p.args)}))
         if k < len(persisted):
             try:
                 loc = persisted[k]["object"]["relative_path"]
@@ -346,15 +439,11 @@ def check_entry(spec, orig, doc, present, value, errors_expected):
     return v, info
 
 
-def _errors_expected(broker, point):
-    return [broker.tracebacks.get(ex) for ex in broker.exceptions.get(point, [])]
-
-
 def run_specs(specs, exec_perm=None):
     """Collects and loads one archive holding `specs`. Returns [(violations, info)] per spec.
     exec_perm None: serial persister; otherwise Hydration gets the deterministic pool stand-in with that completion order."""
     e = B.env()
-    out = [([], {"persisted": 0, "loaded": 0, "rels": set(), "errors": 0}) for _ in specs]
+    out = [([], {"persisted": 0, "loaded": 0, "rels": set(), "errors": 0, "collide": False}) for _ in specs]
     with tmp.scratch("c11a") as top:
         executor = B.OrderedPool(exec_perm) if exec_perm is not None else None
         b = B.build(specs, top, pool=executor)
@@ -363,7 +452,7 @@ def run_specs(specs, exec_perm=None):
                 B.collect(b)
             except Exception as ex:
                 return [([("collect:raises", "no exception", repr(ex)[:300])], out[0][1]) for _ in specs]
-            errs = [_errors_expected(b.host_broker, p) for p in b.points]
+            errs = [B.expected_errors(b, i) for i in range(len(b.points))]
             try:
                 ctx, broker = B.load(b)
             except Exception as ex:
@@ -408,8 +497,15 @@ def check_case(case):
     """-> [(clause, expected, observed, features)] for one case descriptor (part A spec or part B corruption)."""
     if case.get("part") == "B":
         return check_b([case])[0][0]
+    if case.get("part") == "H":
+        return check_h(case)[0]
     v, info = run_specs([case], exec_perm=_exec_of(case))[0]
     f = content_features(case, None)
+    f["elements_collide_on_location"] = bool(info["collide"])
+    if info["collide"]:
+        # why two elements of this spec share a location (measured above from the metadata document)
+        f["collision"] = "save-as-directory" if case.get("save_as") == "dir" else (
+            "command-mangling" if case["kind"] in ("m_cmd", "m_cmd2", "ccmd") else "other")
     return [(c, x, o, f) for c, x, o in v]
 
 
@@ -421,10 +517,13 @@ def _record(res, spec, v, info, confirm_budget):
     nontrivial = (info["persisted"] >= 1 and info["loaded"] >= 1) or (spec["kind"] == "fail" and info["errors"] >= 1)
     rel = "+".join(sorted(r for r in info["rels"] if r)) or "-"
     res.case(nontrivial=nontrivial,
-             outcome="A:%s:%s:p%d:l%d:%s:e%d" % (spec["kind"], spec.get("save_as", "none"), min(info["persisted"], 4),
-                                                  min(info["loaded"], 4), rel, min(info["errors"], 2)))
+             outcome="A:%s:%s:p%d:l%d:%s:e%d%s" % (spec["kind"], spec.get("save_as", "none"), min(info["persisted"], 4),
+                                                    min(info["loaded"], 4), rel, min(info["errors"], 2),
+                                                    ":collide" if info["collide"] else ""))
     res.stat("A_results_persisted", info["persisted"])
     res.stat("A_results_loaded", info["loaded"])
+    if info["collide"]:
+        res.stat("A_specs_with_two_elements_on_one_location")
     if "loaded-1" in info["rels"]:
         res.stat("A_specs_losing_one_trailing_empty_line")
     if v:
@@ -461,6 +560,15 @@ def run_batches(res, specs):
 
 def run_unit(unit, tier):
     res = Result()
+    if unit["part"] == "H":
+        for case in h_cases(unit["scenario"]):
+            v, info = check_h(case)
+            res.case(nontrivial=info["checked"] >= 1, outcome="H:%s:%s" % (case["scenario"], info["loaded"]))
+            res.stat("H_entries_checked", info["checked"])
+            for c, x, o, f in v:
+                res.violation(c, case, x, o, f)
+        res.samples.append(case)
+        return res
     if unit["part"] == "A":
         if unit["sub"] == "sweep":
             specs = [spec_single(unit["kind"], unit["save_as"], c) for c in sweep_contents(unit)]
@@ -476,6 +584,18 @@ def run_unit(unit, tier):
         elif unit["sub"] == "args":
             specs = arg_specs()
             run_batches(res, specs)
+        elif unit["sub"] == "many":
+            specs = many_specs()
+            run_batches(res, specs)
+        elif unit["sub"] == "collide":
+            specs = collide_specs()
+            run_batches(res, specs)
+        elif unit["sub"] == "variant":
+            extra = VARIANTS[unit["index"]]
+            specs = [dict(spec_single(extra["kind"], extra["save_as"], c), **dict((k, v) for k, v in extra.items()
+                                                                               if k not in ("kind", "save_as")))
+                     for c in enumx.strings(B.TOKENS, 2)]
+            run_batches(res, specs)
         else:
             specs = [{"part": "A", "kind": "fail", "exc": x, "elems": []} for x in FAILS]
             run_batches(res, specs)
@@ -490,6 +610,9 @@ def run_unit(unit, tier):
         else:
             cases = [{"part": "B", "subset": unit["subset"], "corruption": kind, "order": list(o)}
                      for kind in CORRUPTIONS for o in ORDERS]
+        if unit["arch"] != 1:
+            for c in cases:
+                c["arch"] = unit["arch"]
     else:
         cases = [{"part": "B", "subset": unit["subset"], "corruption": "truncate", "offset": k, "order": list(o)}
                  for k in unit["offsets"] for o in ORDERS]
@@ -518,20 +641,28 @@ B_SPECS = [
     {"part": "A", "kind": "fail", "exc": "value", "elems": []},
 ]
 CORRUPTIONS = ["delete", "nonjson", "shape_list", "shape_obj", "shape_null", "shape_no_results", "shape_results_scalar",
-               "unknown_name", "unknown_type", "data_deleted", "meta_is_dir", "binary", "dangling_symlink", "stray_file"]
+               "unknown_name", "unknown_type", "data_deleted", "meta_is_dir", "binary", "dangling_symlink", "stray_file",
+               "data_truncated", "data_emptied", "data_invalid_utf8", "data_is_dir"]
 ORDERS = list(itertools.permutations(range(3)))     # every order in which hydrate can meet the three entries
 NOT_CORRUPTING = ("stray_file",)      # adds an unknown entry next to the selected ones; the selected entries stay intact
 for _b in BOUNDS.values():
     _b["corruption_kinds"] = ["truncate"] + CORRUPTIONS
     _b["corrupted_archive_entries"] = [sp["kind"] for sp in B_SPECS]
+B_SPECS_2 = [
+    {"part": "A", "kind": "raw", "save_as": "dir", "elems": [{"n": "f", "lines": ["raw \ufeff", ""]}]},
+    {"part": "A", "kind": "m_ds", "save_as": "rename", "elems": [{"n": "b", "lines": ["one", ""]}, {"n": "d", "lines": []},
+                                                                 {"n": "a", "lines": ["ü"]}]},
+    {"part": "A", "kind": "cfile", "save_as": "none", "elems": [{"n": "x", "lines": []}, {"n": "y", "lines": ["in container"]}]},
+]
+B_ARCHS = {1: B_SPECS, 2: B_SPECS_2}
 _LENS = None
 
 
-def _template(top):
+def _template(top, arch=1):
     """Collects the three-entry archive and normalises the two timing fields (same json.dump as dehydrate)."""
-    b = B.build(B_SPECS, top)
+    b = B.build(B_ARCHS[arch], top)
     B.collect(b)
-    for i in range(len(B_SPECS)):
+    for i in range(len(B_ARCHS[arch])):
         p = B.meta_path(b, i)
         if b.docs[i] is None:
             continue
@@ -617,11 +748,19 @@ def corrupt(b, out, case):
             elif kind == "unknown_type":
                 if isinstance(first, dict):
                     first["type"] = B.MODULE + ".NoSuchProvider"
-            elif kind == "data_deleted":
+            elif kind.startswith("data_"):
                 if isinstance(first, dict):
                     dp = os.path.join(out, "data", first["object"]["relative_path"])
                     if os.path.isfile(dp):
+                        with open(dp, "rb") as fh:
+                            data = fh.read()
                         os.remove(dp)
+                        if kind == "data_is_dir":
+                            os.mkdir(dp)
+                        elif kind != "data_deleted":
+                            with open(dp, "wb") as fh:
+                                fh.write({"data_truncated": data[:len(data) // 2], "data_emptied": b"",
+                                          "data_invalid_utf8": b"\xff\xfe\x80" + data[1:]}[kind])
                         changed = True
             else:
                 raise ValueError("unknown corruption %r" % kind)
@@ -641,12 +780,16 @@ def check_b(cases):
     with tmp.scratch("c11b") as top:
         t = os.path.join(top, "t")
         os.makedirs(t)
-        b = _template(t)
+        arch = cases[0].get("arch", 1)
+        if any(c.get("arch", 1) != arch for c in cases):
+            raise ValueError("one check_b call works on one archive shape")
+        bspecs = B_ARCHS[arch]
+        b = _template(t, arch)
         try:
-            errs = [_errors_expected(b.host_broker, p) for p in b.points]
-            lens = [os.path.getsize(B.meta_path(b, i)) if b.docs[i] is not None else 0 for i in range(len(B_SPECS))]
+            errs = [B.expected_errors(b, i) for i in range(len(b.points))]
+            lens = [os.path.getsize(B.meta_path(b, i)) if b.docs[i] is not None else 0 for i in range(len(bspecs))]
             for n, case in enumerate(cases):
-                feats = {"corruption": case["corruption"], "entries_corrupted": len(case["subset"]),
+                feats = {"corruption": case["corruption"], "entries_corrupted": len(case["subset"]), "archive_shape": arch,
                          "first_listed_entry_corrupted": bool(case.get("order")) and case["order"][0] in case["subset"]}
                 v = []
                 info = {"changed": False, "loaded": "", "checked": 0, "lens": lens}
@@ -661,7 +804,7 @@ def check_b(cases):
                         outl.append((v, info))
                         continue
                     info["loaded"] = "".join(str(i) for i, p in enumerate(b.points) if p in broker)
-                    for i, spec in enumerate(B_SPECS):
+                    for i, spec in enumerate(bspecs):
                         if i in case["subset"] and case["corruption"] not in NOT_CORRUPTING:
                             continue
                         info["checked"] += 1
@@ -678,6 +821,137 @@ def check_b(cases):
         finally:
             B.cleanup(b)
     return outl
+
+
+# ---- part H: several entries in one archive, load orders, two-step histories, other entry points ---------------
+
+H_SPECS = [
+    {"part": "A", "kind": "text", "save_as": "rename", "elems": [{"n": "f", "lines": ["a", "", "ü"]}]},
+    {"part": "A", "kind": "m_cmd", "save_as": "none", "elems": [{"n": "v0", "arg": 0, "lines": ["zero"]},
+                                                               {"n": "d", "arg": "", "lines": []},
+                                                               {"n": "v2", "arg": 2, "lines": ["two", ""]}]},
+    {"part": "A", "kind": "ds_str", "save_as": "dir", "elems": [{"n": "f", "lines": ["\ufeffbom", "x "]}]},
+    {"part": "A", "kind": "fail", "exc": "value", "elems": []},
+]
+# component names: one attribute name a prefix of another, a case variant, non-ASCII identifiers (the metadata file
+# name is derived from the component name), and a non-ASCII class name
+H_NAME_SPECS = [dict(H_SPECS[0], attr="p1"), dict(H_SPECS[1], attr="p10"), dict(H_SPECS[2], attr="P1"),
+                dict(H_SPECS[3], attr="naïve_spéc"), dict(H_SPECS[2], attr="日本")]
+H_SCENARIOS = ["order", "direct_hydrate", "prefilled_unrelated", "prefilled_same", "hydrate_twice_same_broker",
+               "load_twice_fresh", "dehydrate_twice", "second_hydration_object", "two_runs", "stream", "compressed", "names"]
+ROT4 = [[0, 1, 2, 3], [1, 2, 3, 0], [2, 3, 0, 1], [3, 0, 1, 2], [3, 2, 1, 0]]
+
+
+def h_cases(sc):
+    perms = [list(p) for p in itertools.permutations(range(4))]
+    if sc == "order":
+        return [{"part": "H", "scenario": sc, "order": o} for o in perms]
+    if sc in ("direct_hydrate", "prefilled_unrelated", "load_twice_fresh", "stream", "compressed"):
+        return [{"part": "H", "scenario": sc, "order": o} for o in ROT4]
+    if sc == "prefilled_same":
+        return [{"part": "H", "scenario": sc, "entry": i, "order": o} for i in range(3) for o in perms]
+    if sc == "hydrate_twice_same_broker":
+        return [{"part": "H", "scenario": sc, "order": o} for o in perms]
+    if sc in ("dehydrate_twice", "second_hydration_object"):
+        return [{"part": "H", "scenario": sc, "entries": list(t)} for t in enumx.subsets(range(4), min_size=1)]
+    if sc == "two_runs":
+        return [{"part": "H", "scenario": sc, "first": list(t)} for t in enumx.subsets(range(4), min_size=1, max_size=3)]
+    if sc == "names":
+        return [{"part": "H", "scenario": sc, "order": list(o)} for o in
+                ([0, 1, 2, 3, 4], [1, 0, 2, 3, 4], [4, 3, 2, 1, 0], [2, 0, 1, 4, 3])]
+    raise ValueError(sc)
+
+
+def check_h(case):
+    """-> (violations [(clause, expected, observed, features)], info). One archive with several entries; what is
+    demanded is what parts A and B demand: loading never raises and every entry loads as collected."""
+    e = B.env()
+    sc = case["scenario"]
+    specs = H_NAME_SPECS if sc == "names" else H_SPECS
+    feats = {"scenario": sc}
+    info = {"checked": 0, "loaded": ""}
+    v = []
+    with tmp.scratch("c11h") as top:
+        b = B.build(specs, top, cls_suffix="É" if sc == "names" else "")
+        try:
+            n = len(specs)
+            if sc == "two_runs":
+                B.collect(b, only=case["first"])
+                B.collect(b, only=[i for i in range(n) if i not in case["first"]])
+            else:
+                B.collect(b)
+            if sc == "dehydrate_twice":          # the same Hydration object persists a component a second time
+                for i in case["entries"]:
+                    b.hydration.dehydrate(b.points[i], b.brokers[i])
+                B.read_docs(b)
+            if sc == "second_hydration_object":  # a second Hydration object on the same directory persists it again
+                h2 = e.serde.Hydration(b.out, b.ctx)
+                for i in case["entries"]:
+                    h2.dehydrate(b.points[i], b.brokers[i])
+                B.read_docs(b)
+            errs = [B.expected_errors(b, i) for i in range(n)]
+            order = case.get("order")
+            skip = set()
+            loads = []                 # brokers to check
+            out = b.out
+            keep = None
+            try:
+                if sc == "direct_hydrate":
+                    loads.append(B.load(b, order=order, direct=True)[1])
+                elif sc == "prefilled_unrelated":
+                    pre = e.dr.Broker()
+                    pre["verif-unrelated-key"] = 0
+                    loads.append(B.load(b, order=order, broker=pre)[1])
+                elif sc == "prefilled_same":
+                    pre = e.dr.Broker()
+                    pre[b.points[case["entry"]]] = "PREFILLED"
+                    skip.add(case["entry"])
+                    loads.append(B.load(b, order=order, broker=pre, direct=True)[1])
+                elif sc == "hydrate_twice_same_broker":
+                    ctx, br = B.load(b, order=order)
+                    with B.listing_order(os.path.join(out, "meta_data"), B.meta_names(b, order[::-1])):
+                        br2 = e.serde.Hydration(root=out, ctx=ctx).hydrate(br)
+                    loads.append(br2)
+                elif sc == "load_twice_fresh":
+                    loads.append(B.load(b, order=order)[1])
+                    loads.append(B.load(b, order=order[::-1])[1])
+                elif sc == "compressed":
+                    from insights.collect import create_archive
+                    from insights.core import archives
+                    tgz = create_archive(b.out, remove_path=True)
+                    keep = archives.extract(tgz, extract_dir=top, content_type="application/gzip")
+                    ex = keep.__enter__()
+                    out = os.path.join(ex.tmp_dir, os.path.basename(b.out))
+                    ctx, br = B.load(b, out=out, order=order)
+                    if not isinstance(ctx, e.SerializedArchiveContext):
+                        v.append(("roundtrip:archive-not-recognised", "SerializedArchiveContext", type(ctx).__name__, feats))
+                    loads.append(br)
+                else:
+                    loads.append(B.load(b, order=order)[1])
+                for broker in loads:
+                    info["loaded"] = "".join(str(i) for i, p in enumerate(b.points) if p in broker)
+                    for i, spec in enumerate(specs):
+                        if i in skip:
+                            continue
+                        info["checked"] += 1
+                        value = broker.get(b.points[i])
+                        if sc == "stream" and value is not None:
+                            for k, p in enumerate(value if isinstance(value, list) else [value]):
+                                streamed = list(p.stream())       # before .content: reads the persisted file itself
+                                if streamed != list(p.content):
+                                    v.append(("roundtrip:stream-differs-from-content", show(list(p.content)), show(streamed),
+                                              dict(feats, entry=i)))
+                        ev, _ = check_entry(spec, b.originals[i], b.docs[i], b.points[i] in broker, value, errs[i])
+                        for c, x, o in ev:
+                            v.append((c, x, o, dict(feats, entry=i, kind=spec["kind"])))
+            except Exception as ex:
+                v.append(("history:load-raises", "no exception", repr(ex)[:300], feats))
+            finally:
+                if keep is not None:
+                    keep.__exit__(None, None, None)
+        finally:
+            B.cleanup(b)
+    return v, info
 
 
 TECHNIQUE = ("bounded exhaustive enumeration of contents x provider kinds x save-as x element orders through a real collection + "
